@@ -68,7 +68,7 @@ def make_project(seed, nfiles, dup=False):
         elif layout == 2 and nfiles > 1:
             paths.append(["mod.rs", "users/mod.rs", "orders/mod.rs", "orders/handlers.rs", "users/handlers.rs", "billing/mod.rs", "z/mod.rs"][i % 7])
         else:
-            d = ["", "commands/", "models/", "commands/nested/"][i % 4] if nfiles > 1 else ""
+            d = ["", "commands/", "models/", "commands/nested/", "dist/", "node_modules/pkg/", "build/"][i % 7] if nfiles > 1 else ""
             paths.append("%sf%d.rs" % (d, i))
     # types first so that commands can reference types of any file
     decls = {p: [] for p in paths}
@@ -149,6 +149,24 @@ def make_project(seed, nfiles, dup=False):
     if agg:
         decls[paths[0]].append("#[tauri::command]\npub fn load_aggregate(id: i32) -> Result<%s, String> {\n    todo!()\n}\n" % agg)
         meta["commands"].append("load_aggregate")
+    # many reachable types with long non-ASCII names (whatever is logged about them in verbose mode gets long)
+    if seed % 4 == 3:
+        names = ["AÄÖÜäöüßéèêñçå%d" % i for i in range(4)] + ["Bäöü設定ßé%d" % i for i in range(4)] + ["設定項目番号記録%d" % i for i in range(8)] + ["Größe%dÄnderung" % i for i in range(6)]
+        for n in names:
+            decls[rng.pick(paths)].append("#[derive(Debug, Clone, Serialize, Deserialize)]\npub struct %s {\n    pub wert: u32,\n}\n" % n)
+        decls[rng.pick(paths)].append("#[derive(Debug, Clone, Serialize, Deserialize)]\npub struct Sammlung {\n%s}\n" % "".join(
+            "    pub f%d: %s,\n" % (i, n) for i, n in enumerate(names)))
+        decls[rng.pick(paths)].append("#[tauri::command]\npub fn lade_sammlung(id: i32) -> Result<Sammlung, String> {\n    todo!()\n}\n")
+        meta["commands"].append("lade_sammlung")
+        # (a leading name of varying length shifts where any fixed byte offset falls in a listing of these names)
+        pad = "A" + "a" * ((seed // 4) % 11)
+        decls[rng.pick(paths)].append("#[derive(Debug, Clone, Serialize, Deserialize)]\npub struct %s {\n    pub n: u8,\n}\n" % pad)
+        names = [pad] + names
+        # … and commands whose own signatures name many of them
+        for c0, chunk in enumerate((names[0:9], names[5:17], names[10:22])):
+            decls[rng.pick(paths)].append("#[tauri::command]\npub fn speichere_%d(%s) -> Result<(), String> {\n    todo!()\n}\n" % (
+                c0, ", ".join("p%d: %s" % (i, n) for i, n in enumerate(chunk))))
+            meta["commands"].append("speichere_%d" % c0)
     # two reachable types whose names differ only in case, a type that is serialised by hand (no derive), and a field of a
     # type (`Duration`) that only a *qualified* mapping key could name
     if seed % 2 == 1:
@@ -242,6 +260,16 @@ def move_items(project, seed):
         p2["files"][path] = keep
     last = paths[-1]
     p2["files"][paths[0]].extend(p2["files"].pop(last))
+    return p2
+
+
+def move_to_odd_dirs(project, seed):
+    """every item of the first file moves to `dist/moved.rs`, of the second to `node_modules/pkg/moved.rs`, of the third to
+    `build/out/moved.rs` (directory names some tools skip; this one only skips `target` and `.git`)"""
+    p2 = copy.deepcopy(project)
+    paths = sorted(p2["files"])
+    for src, dst in zip(paths, ["dist/moved.rs", "node_modules/pkg/moved.rs", "build/out/moved.rs", ".cache/moved.rs", "vendor/x/moved.rs"]):
+        p2["files"][dst] = p2["files"].pop(src)
     return p2
 
 
